@@ -78,7 +78,7 @@ func (r *Run) runAxiomStandins() []*StandinResult {
 	byName := map[string][]*Decl{}
 	var names []string
 	for _, d := range r.w.Lemmas {
-		if !d.Axiom || d.Checked == "" {
+		if !d.Axiom || d.Checked == "" || d.Checked == "definitional" {
 			continue
 		}
 		used := hasTag(d.Tags, r.prop)
